@@ -3,6 +3,7 @@
 change applied.  Writes /verif/seeded/matrix.json (which check catches which change, exit code, first VIOLATION line)."""
 import json, os, subprocess, sys, tempfile, time
 
+ROOT = os.environ.get("VERIF_ROOT", "/verif")  # run from a snapshot of /verif while /verif itself is being edited
 SEEDED = "/verif/seeded"
 
 def sh(cmd, **kw):
@@ -24,7 +25,7 @@ def main():
             if sh(f"git apply {SEEDED}/{sid}/patch.diff", cwd=wt).returncode != 0:
                 matrix[sid] = {"property": prop, "error": "patch does not apply"}; continue
             t0 = time.time()
-            p = sh(f"/verif/check {prop} --tier quick", env=env, cwd="/verif", timeout=1800)
+            p = sh(f"{ROOT}/check {prop} --tier quick", env=env, cwd=ROOT, timeout=1800)
             lines = [l for l in p.stdout.splitlines() if l.startswith("VIOLATION") or l.startswith("KNOWN-FINDING")]
             first = lines[0] if lines else ""
             what = ""
